@@ -187,8 +187,10 @@ def name_tables(ctx, L):
     pp = ctx.py.mod('prophyc.parsers.prophy')
     f = pp.func('Parser.p_include_def')
     s = ws(unparse(f.node))
-    L.check(inn('if isinstance(node, model.Constant): self.constdecls[node.name] = node', s) and
-            inn('if isinstance(node, model.Enum): for mem in node.members: self.constdecls[mem.name] = mem', s), 'C14g.name-tables',
+    from . import c16 as _c16
+    from ..core import Ledger as _Ledger
+    _c16.symbol_propagation(ctx, _Ledger('C16'))        # (scratch ledger: only the verdict on the constant tables is taken over)
+    L.check(_c16.include_scope_ok.get('constants', False), 'C14g.name-tables',
             'p_include_def', f.site(), 'constants AND enumerators of an included file enter the expression scope', s[-400:])
     n = pp.func('Parser.p_expression_name')
     s = ws(unparse(n.node))
